@@ -74,14 +74,17 @@ def descend (all : List Tower) (cont : Int → Node → Bool) : Nat → Nat → 
     let (x', r') := walk all i cont all.length x r
     descend all cont i x' r' ++ [(x', r')]
 
+/-- rewrite spans in place: slot (position `p`, level `i`) holding `sp` gets `f p i sp` -/
+def mapSpans (all : List Tower) (f : Nat → Nat → Int → Int) : List Tower :=
+  all.mapIdx fun p t => { t with spans := t.spans.mapIdx fun i sp => f p i sp }
+
 /-! ### insertNode -/
 
 def insertNode (s : SL) (n : Node) (lvl : Nat) : SL :=
   let d0 := descend s.all (fun _ f => nlt f n) s.level 0 0
   -- `if level > ss.level`: rank[i] = 0, update[i] = header, header.level[i].span = ss.length
   let d := d0 ++ List.replicate (lvl - s.level) (0, 0)
-  let all1 := s.all.modify 0 fun h =>
-    { h with spans := h.spans.zipIdx.map fun (sp, i) => if s.level ≤ i ∧ i < lvl then s.length else sp }
+  let all1 := mapSpans s.all fun p i sp => if p = 0 ∧ s.level ≤ i ∧ i < lvl then s.length else sp
   let level' := max s.level lvl
   let r0 := (d.getD 0 (0, 0)).2
   let upd (i : Nat) : Nat := (d.getD i (0, 0)).1
@@ -89,9 +92,8 @@ def insertNode (s : SL) (n : Node) (lvl : Nat) : SL :=
   -- x.level[i].span = update[i].level[i].span - (rank[0] - rank[i])
   let newSpans := (List.range lvl).map fun i => spanOf all1 (upd i) i - (r0 - rnk i)
   -- update[i].level[i].span = (rank[0] - rank[i]) + 1   (i < level);   update[i].level[i].span++   (level ≤ i < ss.level)
-  let all2 := all1.zipIdx.map fun (t, p) =>
-    { t with spans := t.spans.zipIdx.map fun (sp, i) =>
-        if p = upd i then (if i < lvl then (r0 - rnk i) + 1 else if i < level' then sp + 1 else sp) else sp }
+  let all2 := mapSpans all1 fun p i sp =>
+    if p = upd i then (if i < lvl then (r0 - rnk i) + 1 else if i < level' then sp + 1 else sp) else sp
   { level := level', length := s.length + 1, all := all2.insertIdx (upd 0 + 1) ⟨n, newSpans⟩ }
 
 /-! ### deleteNode, delete -/
@@ -103,11 +105,10 @@ def shrinkLevel (all : List Tower) : Nat → Nat
 
 /-- `deleteNode(x, update)`, `x` at position `xp` -/
 def deleteNode (s : SL) (xp : Nat) (upd : List Nat) : SL :=
-  let all1 := s.all.zipIdx.map fun (t, p) =>
-    { t with spans := t.spans.zipIdx.map fun (sp, i) =>
-        if i < s.level ∧ p = upd.getD i 0 then
-          (if fwd s.all p i = some xp then sp + (spanOf s.all xp i - 1) else sp - 1)
-        else sp }
+  let all1 := mapSpans s.all fun p i sp =>
+    if i < s.level ∧ p = upd.getD i 0 then
+      (if fwd s.all p i = some xp then sp + (spanOf s.all xp i - 1) else sp - 1)
+    else sp
   let all2 := all1.eraseIdx xp
   { level := shrinkLevel all2 s.level, length := s.length - 1, all := all2 }
 
